@@ -119,7 +119,9 @@ def dset : Dict β → String → β → Dict β
   | (k', v') :: d, k, v => if k' = k then (k', v) :: d else (k', v') :: dset d k v
 
 /-- `del d[k]` (caller has checked presence) -/
-def ddel (d : Dict β) (k : String) : Dict β := d.filter (fun e => e.1 ≠ k)
+def ddel : Dict β → String → Dict β
+  | [], _ => []
+  | (k', v) :: d, k => if k' = k then ddel d k else (k', v) :: ddel d k
 
 def dhas (d : Dict β) (k : String) : Bool := decide (k ∈ d.map (·.1))
 
